@@ -312,6 +312,31 @@ def twin_pairs(tier):
     return pairs
 
 
+_CP = {}
+
+
+def class_pairs(tier):
+    """pairs of DIFFERENT configurations of the same library class, side by side in one design, in both orders
+    (what is decided for one instance of a class must not leak into another)"""
+    if tier in _CP:
+        return _CP[tier]
+    groups = {}
+    for s, c in configs('quick'):
+        if c.get('corner'):
+            continue
+        groups.setdefault((s, c.get('block')), []).append((s, c))
+    pairs = []
+    for key, lst in sorted(groups.items(), key=lambda kv: repr(kv[0])):
+        if len(lst) < 2:
+            continue
+        others = [lst[-1]] if len(lst) == 2 or tier == 'quick' else [lst[1], lst[-1]]
+        for o in others:
+            pairs.append(('%s/%s' % key, lst[0], o))
+            pairs.append(('%s/%s' % key, o, lst[0]))
+    _CP[tier] = pairs
+    return pairs
+
+
 class _Prefixed(Logic):
     def __init__(self, real, name):
         super().__init__(real, name)
@@ -322,7 +347,9 @@ class _Prefixed(Logic):
         return self.real.wire(self.pfx + name, width)
 
     def getSimulator(self):
-        return self.real.getSimulator()
+        # the sequential builders ask for a simulator; creating it on the half-built twin would leave the wires of the
+        # second half at their reset values until the first clk() (getSimulator() on an existing simulator only re-sorts)
+        return None
 
 
 def build_twin(a, b):
